@@ -20,7 +20,15 @@ var cond = func() *runewidth.Condition {
 	return c
 }()
 
-func Width(r rune) int { return cond.RuneWidth(r) }
+// Width: columns of a rune. The word joiner, invisible operators and bidi isolates
+// U+2060..U+2069 are format characters (C09: shown as blanks); go-runewidth's
+// tables lack them.
+func Width(r rune) int {
+	if r >= 0x2060 && r <= 0x2069 {
+		return 0
+	}
+	return cond.RuneWidth(r)
+}
 
 // MustBlank: primary runes shown as a blank of width 1.
 func MustBlank(r rune) bool { return r < ' ' || Width(r) == 0 }
